@@ -1,2 +1,427 @@
 import Rscp.Model.Receive
 import Rscp.Props.C03
+namespace Rscp.Lemmas.Receive
+open Rscp Rscp.Model Rscp.Lemmas.Decode
+
+/-! ## the pieces `conn.Read` returns -/
+
+theorem splitSeg_spec (cap : Nat) (hcap : 0 < cap) :
+    ∀ (f : Nat) (seg : List Byte), seg.length < f →
+      (splitSeg cap f seg).flatten = seg ∧ ∀ p ∈ splitSeg cap f seg, p ≠ []
+  | 0, seg, h => by omega
+  | f+1, seg, h => by
+    unfold splitSeg
+    cases seg with
+    | nil => simp
+    | cons a l =>
+      have hc : cap ≠ 0 := by omega
+      simp only [List.isEmpty_cons, Bool.false_eq_true, if_false, hc]
+      have ih := splitSeg_spec cap hcap f ((a :: l).drop cap) (by
+        rw [List.length_drop]; simp only [List.length_cons] at h ⊢; omega)
+      constructor
+      · rw [List.flatten_cons, ih.1, List.take_append_drop]
+      · intro p hp
+        rcases List.mem_cons.mp hp with rfl | hp
+        · intro h0
+          have := congrArg List.length h0
+          rw [List.length_take] at this
+          simp only [List.length_cons, List.length_nil] at this
+          omega
+        · exact ih.2 p hp
+
+theorem reads_spec (cap : Nat) (hcap : 0 < cap) (segs : List (List Byte)) :
+    (reads cap segs).flatten = segs.flatten ∧ ∀ p ∈ reads cap segs, p ≠ [] := by
+  induction segs with
+  | nil => simp [reads]
+  | cons s segs ih =>
+    have hs := splitSeg_spec cap hcap (s.length + 1) s (by omega)
+    have e : reads cap (s :: segs) = splitSeg cap (s.length + 1) s ++ reads cap segs := by
+      simp [reads]
+    rw [e]
+    constructor
+    · rw [List.flatten_append, hs.1, ih.1, List.flatten_cons]
+    · intro p hp
+      rcases List.mem_append.mp hp with hp | hp
+      · exact hs.2 p hp
+      · exact ih.2 p hp
+
+theorem splitSeg_zero : ∀ (f : Nat) (seg : List Byte), splitSeg 0 f seg = []
+  | 0, _ => rfl
+  | f+1, seg => by unfold splitSeg; cases seg <;> simp
+
+theorem reads_zero (segs : List (List Byte)) : reads 0 segs = [] := by
+  induction segs with
+  | nil => simp [reads]
+  | cons s segs ih =>
+    have e : reads 0 (s :: segs) = splitSeg 0 (s.length + 1) s ++ reads 0 segs := by simp [reads]
+    rw [e, ih, splitSeg_zero]; rfl
+
+theorem cap_pos (b : Nat) (hb : 0 < b ∧ b ≤ 2049) : 0 < uwrap 32 (Gen.C.RSCP_CRYPT_BLOCK_SIZE * b) := by
+  have e : uwrap 32 (Gen.C.RSCP_CRYPT_BLOCK_SIZE * b) = 32 * b % 4294967296 := rfl
+  rw [e]; omega
+
+/-! ## the loop, one step unfolded -/
+
+/-- the results after which the loop reads on -/
+def cont : Res (List Msg) → Bool
+  | .err .invalidFrameLength => true
+  | .ok [] => true
+  | _ => false
+
+/-- whether the loop disconnects when it stops with this result -/
+def disc : Res (List Msg) → Bool
+  | .err _ => true
+  | _ => false
+
+/-- the number of bytes of `l` that make whole blocks -/
+def whole (l : List Byte) : Nat := l.length - l.length % 32
+
+theorem recvLoop_nil (st : RState) (pending fed : List Byte) :
+    recvLoop st pending fed [] = { result := .err .io, disconnected := true, fed := fed } := rfl
+
+theorem recvLoop_cons (st : RState) (pending fed piece : List Byte) (rest : List (List Byte)) :
+    recvLoop st pending fed (piece :: rest) =
+    if piece.isEmpty then { result := .err .invalidFrameLength, disconnected := true, fed := fed } else
+    let pend := pending ++ piece
+    let n := pend.length - pend.length % Gen.C.RSCP_CRYPT_BLOCK_SIZE
+    if n = 0 then recvLoop st pend fed rest else
+    let blocks := pend.take n
+    let (st', r) := readPlain st blocks
+    let fed' := fed ++ blocks
+    match r with
+    | .err .invalidFrameLength => recvLoop st' (pend.drop n) fed' rest
+    | .err e => { result := .err e, disconnected := true, fed := fed' }
+    | .panic => { result := .panic, disconnected := false, fed := fed' }
+    | .ok [] => recvLoop st' (pend.drop n) fed' rest
+    | .ok (m :: ms) => { result := .ok (m :: ms), disconnected := false, fed := fed' } := by
+  rfl
+
+theorem recvLoop_short (st : RState) (pending fed piece : List Byte) (rest : List (List Byte))
+    (hp : piece ≠ []) (hn : (pending ++ piece).length < 32) :
+    recvLoop st pending fed (piece :: rest) = recvLoop st (pending ++ piece) fed rest := by
+  rw [recvLoop_cons]
+  have he : piece.isEmpty = false := by cases piece <;> simp at hp ⊢
+  have h0 : (pending ++ piece).length - (pending ++ piece).length % Gen.C.RSCP_CRYPT_BLOCK_SIZE = 0 := by
+    show (pending ++ piece).length - (pending ++ piece).length % 32 = 0
+    omega
+  simp only [he, Bool.false_eq_true, if_false, h0, if_true]
+
+theorem recvLoop_call (st : RState) (pending fed piece : List Byte) (rest : List (List Byte))
+    (hp : piece ≠ []) (hn : 32 ≤ (pending ++ piece).length) :
+    recvLoop st pending fed (piece :: rest) =
+      if cont (readPlain st ((pending ++ piece).take (whole (pending ++ piece)))).2 then
+        recvLoop (readPlain st ((pending ++ piece).take (whole (pending ++ piece)))).1
+          ((pending ++ piece).drop (whole (pending ++ piece)))
+          (fed ++ (pending ++ piece).take (whole (pending ++ piece))) rest
+      else
+        { result := (readPlain st ((pending ++ piece).take (whole (pending ++ piece)))).2
+          disconnected := disc (readPlain st ((pending ++ piece).take (whole (pending ++ piece)))).2
+          fed := fed ++ (pending ++ piece).take (whole (pending ++ piece)) } := by
+  rw [recvLoop_cons]
+  have he : piece.isEmpty = false := by cases piece <;> simp at hp ⊢
+  have hw : (pending ++ piece).length - (pending ++ piece).length % Gen.C.RSCP_CRYPT_BLOCK_SIZE
+      = whole (pending ++ piece) := rfl
+  have h0 : whole (pending ++ piece) ≠ 0 := by unfold whole; omega
+  simp only [he, Bool.false_eq_true, if_false, hw, h0]
+  generalize readPlain st ((pending ++ piece).take (whole (pending ++ piece))) = q
+  obtain ⟨st', r⟩ := q
+  cases r with
+  | ok l => cases l <;> simp [cont, disc]
+  | err e => cases e <;> simp [cont, disc]
+  | panic => simp [cont, disc]
+
+/-! ## `whole` -/
+
+theorem whole_le (l : List Byte) : whole l ≤ l.length := by unfold whole; omega
+theorem whole_mod (l : List Byte) : whole l % 32 = 0 := by unfold whole; omega
+theorem whole_ge (l : List Byte) (h : 32 ≤ l.length) : 32 ≤ whole l := by unfold whole; omega
+theorem whole_rest (l : List Byte) : l.length - whole l < 32 := by unfold whole; omega
+
+theorem length_take_whole (l : List Byte) : (l.take (whole l)).length = whole l := by
+  rw [List.length_take]; exact Nat.min_eq_left (whole_le l)
+
+theorem goodChunk_whole (l : List Byte) (h : 32 ≤ l.length) : GoodChunk (l.take (whole l)) := by
+  unfold GoodChunk; rw [length_take_whole]; exact ⟨whole_ge l h, whole_mod l⟩
+
+/-! ## no byte is lost; no panic -/
+
+theorem recvLoop_fed : ∀ (rest : List (List Byte)) (st : RState) (pending fed : List Byte),
+    (∀ p ∈ rest, p ≠ []) → fed.length % 32 = 0 →
+    ∃ k, (recvLoop st pending fed rest).fed = (fed ++ (pending ++ rest.flatten)).take (32 * k)
+  | [], st, pending, fed, _, hf => by
+    refine ⟨fed.length / 32, ?_⟩
+    rw [recvLoop_nil]
+    have e : 32 * (fed.length / 32) = fed.length := by omega
+    rw [e, List.take_left']
+    rfl
+  | piece :: rest, st, pending, fed, hne, hf => by
+    have hp : piece ≠ [] := hne piece (List.mem_cons_self ..)
+    have hne' : ∀ p ∈ rest, p ≠ [] := fun p h => hne p (List.mem_cons_of_mem _ h)
+    have hS : fed ++ (pending ++ (piece :: rest).flatten) = fed ++ ((pending ++ piece) ++ rest.flatten) := by
+      rw [List.flatten_cons, List.append_assoc]
+    rw [hS]
+    by_cases hlen : (pending ++ piece).length < 32
+    · rw [recvLoop_short st pending fed piece rest hp hlen]
+      exact recvLoop_fed rest st (pending ++ piece) fed hne' hf
+    · have hlen' : 32 ≤ (pending ++ piece).length := Nat.le_of_not_lt hlen
+      rw [recvLoop_call st pending fed piece rest hp hlen']
+      generalize pending ++ piece = pend at *
+      have hw := length_take_whole pend
+      have hwm := whole_mod pend
+      have hS' : fed ++ (pend ++ rest.flatten) =
+          (fed ++ pend.take (whole pend)) ++ (pend.drop (whole pend) ++ rest.flatten) := by
+        rw [List.append_assoc, ← List.append_assoc (pend.take _), List.take_append_drop]
+      have hf' : (fed ++ pend.take (whole pend)).length % 32 = 0 := by
+        rw [List.length_append, hw]; omega
+      rw [hS']
+      split
+      · exact recvLoop_fed rest _ _ _ hne' hf'
+      · refine ⟨(fed ++ pend.take (whole pend)).length / 32, ?_⟩
+        have e : 32 * ((fed ++ pend.take (whole pend)).length / 32) = (fed ++ pend.take (whole pend)).length := by
+          omega
+        rw [e, List.take_left']
+        rfl
+
+theorem recvLoop_no_panic : ∀ (rest : List (List Byte)) (st : RState) (pending fed : List Byte),
+    (∀ p ∈ rest, p ≠ []) → Reachable st → (recvLoop st pending fed rest).result ≠ .panic
+  | [], st, pending, fed, _, _ => by
+    rw [recvLoop_nil]; intro h; cases h
+  | piece :: rest, st, pending, fed, hne, hr => by
+    have hp : piece ≠ [] := hne piece (List.mem_cons_self ..)
+    have hne' : ∀ p ∈ rest, p ≠ [] := fun p h => hne p (List.mem_cons_of_mem _ h)
+    by_cases hlen : (pending ++ piece).length < 32
+    · rw [recvLoop_short st pending fed piece rest hp hlen]
+      exact recvLoop_no_panic rest st _ fed hne' hr
+    · rw [recvLoop_call st pending fed piece rest hp (Nat.le_of_not_lt hlen)]
+      split
+      · exact recvLoop_no_panic rest _ _ _ hne' (Reachable.step _ hr)
+      · exact Props.C03.decode_total st hr _
+
+/-! ## what the loop returns depends on the stream only -/
+
+/-- the observable part of what the loop did -/
+def out (o : RecvOut) : Res (List Msg) × Bool := (o.result, o.disconnected)
+
+/-- what the caller sees when `Read` answered `r` on a buffer that covers the frame and the rest of the
+    stream is padding: a final answer ends the loop, otherwise it reads until the connection fails -/
+def classify (r : Res (List Msg)) : Res (List Msg) × Bool :=
+  if cont r then (.err .io, true) else (r, disc r)
+
+/-- the outcome once the header `(cf, fs, ds)` has been read -/
+def verdict (cf : Bool) (fs ds : Nat) (S : List Byte) : Res (List Msg) × Bool :=
+  if 32 * (S.length / 32) < fs then (.err .io, true)
+  else classify (decodeComplete (S.take fs) cf fs ds)
+
+/-- the outcome of `receive` as a function of the reply stream alone -/
+def outcome (S : List Byte) : Res (List Msg) × Bool :=
+  if S.length < 32 then (.err .io, true) else
+  match readHeader (S.take 32) with
+  | .ok (cf, fs, ds) => verdict cf fs ds S
+  | .err e => (.err e, true)
+  | .panic => (.panic, false)
+
+/-- one-shot decoding of a block-aligned prefix of a stream whose tail is padding -/
+theorem decodeFrame_prefix {q t : List Byte} {cf : Bool} {fs ds : Nat} (hg : GoodChunk q)
+    (hh : readHeader q = .ok (cf, fs, ds)) (hz : ((q ++ t).drop fs).all (· == 0) = true) :
+    decodeFrame q =
+      if q.length < fs then .err .invalidFrameLength else decodeComplete ((q ++ t).take fs) cf fs ds := by
+  rw [decodeFrame_eq_frameResult hg hh]
+  unfold frameResult
+  by_cases hlt : q.length < fs
+  · rw [if_pos hlt, if_pos hlt]
+  · have hle : fs ≤ q.length := Nat.le_of_not_lt hlt
+    rw [if_neg hlt, if_neg hlt]
+    rw [List.drop_append_of_le_length hle, List.all_append, Bool.and_eq_true] at hz
+    rw [if_pos hz.1, List.take_append_of_le_length hle]
+
+/-- the step after a call of `Read` that answered for the prefix `q` -/
+theorem after_call (cf : Bool) (fs ds : Nat) (S : List Byte) (hz : (S.drop fs).all (· == 0) = true)
+    (rest : List (List Byte))
+    (hrec : ∀ (st : RState) (pending fed : List Byte), ChunkInv cf fs ds st fed → pending.length < 32 →
+      S = fed ++ (pending ++ rest.flatten) →
+      (fs ≤ fed.length → cont (decodeComplete (S.take fs) cf fs ds) = true) →
+      out (recvLoop st pending fed rest) = verdict cf fs ds S)
+    (st' : RState) (q pending' : List Byte) (r : Res (List Msg))
+    (hinv : ChunkInv cf fs ds st' q) (hp : pending'.length < 32)
+    (hS : S = q ++ (pending' ++ rest.flatten)) (hr : r = decodeFrame q) :
+    out (if cont r then recvLoop st' pending' q rest
+         else { result := r, disconnected := disc r, fed := q }) = verdict cf fs ds S := by
+  obtain ⟨_, _, _, hg, hh, _⟩ := id hinv
+  have hdf := decodeFrame_prefix (t := pending' ++ rest.flatten) hg hh (hS ▸ hz)
+  rw [← hS] at hdf
+  rw [hr, hdf]
+  by_cases hlt : q.length < fs
+  · rw [if_pos hlt]
+    have hc : cont (Res.err ErrClass.invalidFrameLength : Res (List Msg)) = true := rfl
+    rw [if_pos hc]
+    exact hrec st' pending' q hinv hp hS (fun h => absurd hlt (Nat.not_lt.mpr h))
+  · rw [if_neg hlt]
+    by_cases hc : cont (decodeComplete (S.take fs) cf fs ds) = true
+    · rw [if_pos hc]
+      exact hrec st' pending' q hinv hp hS (fun _ => hc)
+    · rw [if_neg hc]
+      have hlen : S.length = q.length + (pending'.length + rest.flatten.length) := by
+        rw [hS, List.length_append, List.length_append]
+      have hq := hg.2
+      have hnl : ¬ 32 * (S.length / 32) < fs := by omega
+      unfold verdict classify
+      rw [if_neg hnl, if_neg hc]
+      rfl
+
+theorem loop_running (cf : Bool) (fs ds : Nat) (S : List Byte) (hz : (S.drop fs).all (· == 0) = true) :
+    ∀ (rest : List (List Byte)) (st : RState) (pending fed : List Byte), (∀ p ∈ rest, p ≠ []) →
+      ChunkInv cf fs ds st fed → pending.length < 32 →
+      S = fed ++ (pending ++ rest.flatten) →
+      (fs ≤ fed.length → cont (decodeComplete (S.take fs) cf fs ds) = true) →
+      out (recvLoop st pending fed rest) = verdict cf fs ds S
+  | [], st, pending, fed, _, hinv, hp, hS, hc => by
+    rw [recvLoop_nil]
+    have hlen : S.length = fed.length + pending.length := by
+      rw [hS, List.flatten_nil, List.append_nil, List.length_append]
+    have hq := hinv.2.2.2.1.2
+    unfold verdict
+    by_cases hlt : 32 * (S.length / 32) < fs
+    · rw [if_pos hlt]; rfl
+    · rw [if_neg hlt]
+      unfold classify
+      rw [if_pos (hc (by omega))]; rfl
+  | piece :: rest, st, pending, fed, hne, hinv, hp, hS, hc => by
+    have hpn : piece ≠ [] := hne piece (List.mem_cons_self ..)
+    have hne' : ∀ p ∈ rest, p ≠ [] := fun p h => hne p (List.mem_cons_of_mem _ h)
+    have ih := fun st pending fed => loop_running cf fs ds S hz rest st pending fed hne'
+    rw [List.flatten_cons, ← List.append_assoc pending] at hS
+    by_cases hlen : (pending ++ piece).length < 32
+    · rw [recvLoop_short st pending fed piece rest hpn hlen]
+      exact ih st _ fed hinv hlen hS hc
+    · have hlen' : 32 ≤ (pending ++ piece).length := Nat.le_of_not_lt hlen
+      rw [recvLoop_call st pending fed piece rest hpn hlen']
+      generalize pending ++ piece = pend at *
+      have hgb := goodChunk_whole pend hlen'
+      obtain ⟨r1, r2⟩ := chunkInv_step (pend.take (whole pend)) hinv hgb
+      have hS' : S = (fed ++ pend.take (whole pend)) ++ (pend.drop (whole pend) ++ rest.flatten) := by
+        rw [hS, List.append_assoc, ← List.append_assoc (pend.take _), List.take_append_drop]
+      have hp' : (pend.drop (whole pend)).length < 32 := by
+        rw [List.length_drop]; exact whole_rest pend
+      exact after_call cf fs ds S hz rest ih _ _ _ _ r2 hp' hS' r1
+
+theorem readHeader_take32 (l : List Byte) (h : 32 ≤ l.length) : readHeader (l.take 32) = readHeader l := by
+  have := readHeader_append (l.take 32) (l.drop 32) (by rw [List.length_take]; omega)
+  rw [List.take_append_drop] at this
+  exact this.symm
+
+theorem cont_err_false {e : ErrClass} (h : e ≠ .invalidFrameLength) :
+    cont (Res.err e : Res (List Msg)) = false := by
+  cases e <;> first | rfl | exact absurd rfl h
+
+theorem loop_start (S : List Byte)
+    (hclean : ∀ cf fs ds, readHeader (S.take 32) = .ok (cf, fs, ds) → (S.drop fs).all (· == 0) = true) :
+    ∀ (rest : List (List Byte)) (pending : List Byte), (∀ p ∈ rest, p ≠ []) → pending.length < 32 →
+      S = pending ++ rest.flatten →
+      out (recvLoop ({} : RState) pending [] rest) = outcome S
+  | [], pending, _, hp, hS => by
+    rw [recvLoop_nil]
+    have hlen : S.length < 32 := by rw [hS, List.flatten_nil, List.append_nil]; exact hp
+    unfold outcome
+    rw [if_pos hlen]; rfl
+  | piece :: rest, pending, hne, hp, hS => by
+    have hpn : piece ≠ [] := hne piece (List.mem_cons_self ..)
+    have hne' : ∀ p ∈ rest, p ≠ [] := fun p h => hne p (List.mem_cons_of_mem _ h)
+    rw [List.flatten_cons, ← List.append_assoc pending] at hS
+    by_cases hlen : (pending ++ piece).length < 32
+    · rw [recvLoop_short _ pending [] piece rest hpn hlen]
+      exact loop_start S hclean rest _ hne' hlen hS
+    · have hlen' : 32 ≤ (pending ++ piece).length := Nat.le_of_not_lt hlen
+      rw [recvLoop_call _ pending [] piece rest hpn hlen']
+      generalize pending ++ piece = pend at *
+      have hgb := goodChunk_whole pend hlen'
+      have hwl := length_take_whole pend
+      have hwg := whole_ge pend hlen'
+      have hS' : S = pend.take (whole pend) ++ (pend.drop (whole pend) ++ rest.flatten) := by
+        rw [hS, ← List.append_assoc, List.take_append_drop]
+      have hp' : (pend.drop (whole pend)).length < 32 := by
+        rw [List.length_drop]; exact whole_rest pend
+      have hSlen : ¬ S.length < 32 := by
+        rw [hS, List.length_append]; omega
+      have hhead : readHeader (S.take 32) = readHeader (pend.take (whole pend)) := by
+        rw [hS', List.take_append_of_le_length (by omega), readHeader_take32 _ (by omega)]
+      have h18 : 18 ≤ (pend.take (whole pend)).length := by omega
+      rw [List.nil_append]
+      cases hh : readHeader (pend.take (whole pend)) with
+      | ok p =>
+        obtain ⟨cf, fs, ds⟩ := p
+        have hz := hclean cf fs ds (hhead.trans hh)
+        have hinv := chunkInv_first hgb hh
+        have hv : outcome S = verdict cf fs ds S := by
+          unfold outcome
+          rw [if_neg hSlen, hhead, hh]
+        rw [hv]
+        exact after_call cf fs ds S hz rest
+          (fun st pending fed => loop_running cf fs ds S hz rest st pending fed hne') _ _ _ _ hinv hp' hS' rfl
+      | err e =>
+        have hne := readHeader_err_ne h18 hh
+        rw [readPlain_empty _ _ rfl hgb, hh]
+        simp only
+        rw [cont_err_false hne, if_neg (by intro h; cases h)]
+        unfold outcome
+        rw [if_neg hSlen, hhead, hh]
+        rfl
+      | panic => exact absurd hh (readHeader_ne_panic h18)
+
+/-- `receive` returns what the stream determines, however it is delivered and buffered -/
+theorem receive_outcome (b : Nat) (hb : 0 < b ∧ b ≤ 2049) (segs : List (List Byte))
+    (hclean : ∀ cf fs ds, readHeader (segs.flatten.take 32) = .ok (cf, fs, ds) →
+      (segs.flatten.drop fs).all (· == 0) = true) :
+    out (receiveBytes b segs) = outcome segs.flatten := by
+  obtain ⟨h1, h2⟩ := reads_spec _ (cap_pos b hb) segs
+  unfold receiveBytes
+  exact loop_start _ hclean _ [] h2 (by simp) (by rw [h1]; rfl)
+
+/-- "every byte from `fs` on is zero", in the form the decoder lemmas use -/
+theorem all_zero_of_getD (S : List Byte) (fs : Nat) (h : ∀ i, fs ≤ i → S.getD i 0 = 0) :
+    (S.drop fs).all (· == 0) = true := by
+  cases hz : (S.drop fs).all (· == 0) with
+  | true => rfl
+  | false =>
+    obtain ⟨i, hi, hle, hne⟩ := (not_all_zero_iff S fs).mp hz
+    have := h i hle
+    rw [List.getD_eq_getElem?_getD, List.getElem?_eq_getElem hi, Option.getD_some] at this
+    exact absurd this hne
+
+/-- a stream that is one accepted frame: its tail is padding and the outcome is the frame's messages -/
+theorem complete_outcome (S : List Byte) (hg : GoodChunk S) (m : Msg) (ms : List Msg)
+    (hdec : decodeFrame S = .ok (m :: ms)) :
+    (∀ cf fs ds, readHeader (S.take 32) = .ok (cf, fs, ds) → (S.drop fs).all (· == 0) = true) ∧
+    outcome S = (.ok (m :: ms), false) := by
+  have h32 : 32 ≤ S.length := hg.1
+  have h18 : 18 ≤ S.length := by omega
+  cases hh : readHeader S with
+  | ok p =>
+    obtain ⟨cf, fs, ds⟩ := p
+    rw [decodeFrame_eq_frameResult hg hh] at hdec
+    unfold frameResult at hdec
+    by_cases hlt : S.length < fs
+    · rw [if_pos hlt] at hdec; cases hdec
+    · rw [if_neg hlt] at hdec
+      cases hz : (S.drop fs).all (· == 0) with
+      | false => rw [hz] at hdec; cases hdec
+      | true =>
+        rw [hz, if_pos rfl] at hdec
+        constructor
+        · intro cf' fs' ds' h
+          rw [readHeader_take32 S h32, hh] at h
+          cases h
+          exact hz
+        · have hm := hg.2
+          have hnl : ¬ 32 * (S.length / 32) < fs := by omega
+          unfold outcome verdict
+          rw [if_neg (Nat.not_lt.mpr h32), readHeader_take32 S h32, hh]
+          simp only
+          rw [if_neg hnl, hdec]
+          rfl
+  | err e =>
+    unfold decodeFrame at hdec
+    rw [readPlain_empty _ _ rfl hg, hh] at hdec
+    cases hdec
+  | panic => exact absurd hh (readHeader_ne_panic h18)
+
+end Rscp.Lemmas.Receive
